@@ -263,6 +263,18 @@ Reg r2("gen.versions", [](const Args&) {
 		o += (o.empty() ? "" : ",") + n;
 	return o;
 });
+// gen.verenv -> per version name: File,User,Stream,IsOB,IsFO3,IsSK,IsSSE,IsFO4,IsFO76,IsSF,IsSpecial (what the version
+// predicates of the library answer; the schema translator specialises conditions with these)
+Reg r2b("gen.verenv", [](const Args&) {
+	std::string o;
+	for (auto& n : versionNames()) {
+		NiVersion v = versionByName(n);
+		o += (o.empty() ? "" : ";") + n + ":" + std::to_string(v.File()) + "," + std::to_string(v.User()) + "," + std::to_string(v.Stream()) + ","
+			 + std::to_string(v.IsOB()) + "," + std::to_string(v.IsFO3()) + "," + std::to_string(v.IsSK()) + "," + std::to_string(v.IsSSE()) + ","
+			 + std::to_string(v.IsFO4()) + "," + std::to_string(v.IsFO76()) + "," + std::to_string(v.IsSF()) + "," + std::to_string(v.IsSpecial());
+	}
+	return o;
+});
 // gen.synth <type> <ver> <seed> <count> <path>: forked; writes the raw-saved synthesised file
 Reg r3("gen.synth", [](const Args& a) {
 	fflush(nullptr);
